@@ -675,10 +675,10 @@ func racePass(env hres.Env) map[string]any {
 		overlay = filepath.Join(scratch, "race-overlay.json")
 		os.WriteFile(overlay, b, 0644)
 	}
-	cmd := exec.Command("go1.26.8", "test", "-race", "-vet=off", "-tags", "verif", "-overlay", overlay, "-count=1", "-run", "^TestRaceBodies$", "./h/c17")
+	cmd := exec.Command("go1.26.8", "test", "-race", "-vet=off", "-tags", "verif", "-overlay", overlay, "-count=1", "-v", "-timeout", "40m", "-run", "^TestRaceBodies$", "./h/c17")
 	cmd.Dir = filepath.Join(verif, "mc")
 	cmd.Env = append(os.Environ(), "GOFLAGS=-mod=mod", "GOPROXY=off", "GOSUMDB=off", "GOTOOLCHAIN=local", "GOWORK=off",
-		"GOCACHE="+filepath.Join(verif, ".gocache"), "CGO_ENABLED=1", "VERIF_RACE_ROUNDS=200")
+		"GOCACHE="+filepath.Join(verif, ".gocache"), "CGO_ENABLED=1", "VERIF_RACE_ROUNDS=200", "VERIF_RACE_BUDGET_S=600")
 	start := time.Now()
 	b, err := cmd.CombinedOutput()
 	txt := string(b)
@@ -717,8 +717,12 @@ func TestRaceBodies(t *testing.T) {
 	fmt.Sscan(os.Getenv("VERIF_RACE_ROUNDS"), &rounds)
 	rng := rand.New(rand.NewSource(1))
 	n, stuck := 0, 0
+	stuckBy := map[string]int{}
 	cfgs := configs(false)
-	for r := 0; r < rounds; r++ {
+	budget := 120
+	fmt.Sscan(os.Getenv("VERIF_RACE_BUDGET_S"), &budget)
+	deadline := time.Now().Add(time.Duration(budget) * time.Second)
+	for r := 0; r < rounds && time.Now().Before(deadline); r++ {
 		for _, cfg := range cfgs {
 			if cfg.NoRun || (r%4 != 0 && cfg.Stops < 2) || (cfg.SecondRun && cfg.End == "loop") {
 				continue
@@ -747,14 +751,14 @@ func TestRaceBodies(t *testing.T) {
 			select {
 			case <-fin:
 				n++
-			case <-time.After(10 * time.Second):
-				stuck++ // the lifecycle deadlock is judged by TestCheck, not here
-				w.ctx.VerifDrainRequestExit()
+			case <-time.After(2 * time.Second):
+				stuck++ // a lifecycle deadlock: judged by TestCheck, not here; the goroutines of this round are abandoned
+				stuckBy[cfg.Name()]++
 			}
 			for _, nc := range w.nestedCtx {
 				go nc.Stop()
 			}
 		}
 	}
-	fmt.Printf("RACE-PASS-DONE rounds=%d stuck=%d\n", n, stuck)
+	fmt.Printf("RACE-PASS-DONE rounds=%d stuck=%d stuck_by_config=%v\n", n, stuck, stuckBy)
 }
